@@ -88,6 +88,28 @@ def text(ts):
     return " ".join(ts)
 
 
+# C's punctuators that can swallow a neighbour (maximal munch), plus ChaiScript's own `:=` `..` `::` and the comment openers
+CPUNCT = ["++", "--", "<<", ">>", "<=", ">=", "==", "!=", "&&", "||", "+=", "-=", "*=", "/=", "%=", "&=", "|=", "^=", "<<=", ">>=", "->", "...", "::", "//", "/*", ":=", ".."]
+
+
+def glue_ok(a, b):
+    """may tokens a, b be written with no blank between them and still be read as a then b under C's maximal munch?"""
+    wa, wb = a[0].isalnum() or a[0] == "_", b[0].isalnum() or b[0] == "_"
+    if wa and wb:
+        return False
+    if wa or wb:
+        return True
+    s = a + b
+    return not any(len(p) > len(a) and s.startswith(p) for p in CPUNCT)
+
+
+def glued_text(ts, rng):
+    out = ts[0]
+    for a, b in zip(ts, ts[1:]):
+        out += ("" if glue_ok(a, b) and rng.chance(2, 3) else " ") + b
+    return out
+
+
 def show(e):
     if e[0] == "a":
         return "a%d" % e[1]
